@@ -221,9 +221,13 @@ int main(int argc, char **argv) {
     if (A.has("families")) fams = vr::split(A.get("families"), ',');
     std::unique_ptr<vg::BlobUniverse> blob;
     if (A.has("grammar")) { auto t = vr::split(A.get("grammar"), ':'); blob.reset(new vg::BlobUniverse(atoi(t[1].c_str()), atoi(t[2].c_str()))); }
-    uint64_t total_units = blob ? blob->size() : fams.empty() ? vg::num_graphs(n) : fams.size();
+    uint64_t ngraphs = blob ? blob->size() : fams.empty() ? vg::num_graphs(n) : fams.size();
+    uint64_t wchunks = (uint64_t) A.geti("wchunks", 1);       // a unit is (graph, residue class of weightings): spreads one big graph over all workers
+    uint64_t total_units = ngraphs * wchunks;
     uint64_t seed = (uint64_t) A.geti("seed", 0);
-    auto unit_graph = [&](uint64_t u) { uint64_t uu = (u + seed) % total_units; return blob ? blob->build(uu) : fams.empty() ? vg::graph_from_mask(n, uu) : vg::family(fams[uu]); };
+    int orient_mode = (int) A.geti("orient", 0);
+    auto unit_graph0 = [&](uint64_t u) { uint64_t uu = ((u / wchunks) + seed) % ngraphs; return blob ? blob->build(uu) : fams.empty() ? vg::graph_from_mask(n, uu) : vg::family(fams[uu]); };
+    auto unit_graph = [&](uint64_t u) { vg::EdgeList g = unit_graph0(u); vg::orient(g, orient_mode); return g; };
     auto describe = [&](uint64_t u, uint64_t sub, uint64_t var) {
         vg::EdgeList el = unit_graph(u);
         std::vector<double> w; vg::weighting(alpha, el.m(), sub, w);
@@ -238,7 +242,7 @@ int main(int argc, char **argv) {
         uint64_t nw = vg::num_weightings(alpha, el.m());
         std::vector<double> w; vg::weighting(alpha, el.m(), 0, w);
         B b(el, w);
-        for (uint64_t s = start_sub; s < nw; ++s) {
+        for (uint64_t s = start_sub; s < nw; ++s) { if (R.expired()) break; if (s % wchunks != u % wchunks) continue;
             vg::weighting(alpha, el.m(), s, w);
             R.count(C_INPUTS, cfg.ks.size()); if (dim >= 1) R.count(C_NONTRIV, cfg.ks.size());
             run_case(R, cfg, el, w, cyc, dim, u, s, b);
